@@ -511,6 +511,7 @@ func c17Conc(t *rapid.T, rec *hx.Rec, nowYear int) {
 		}
 		mu.Unlock()
 	}
+	var pendingPanics []string
 	var fatalSeen int32 // KF-17b was hit: a real server would be gone, later observations of this program are not judged
 	type ack struct {
 		key   c17Key
@@ -542,6 +543,16 @@ func c17Conc(t *rapid.T, rec *hx.Rec, nowYear int) {
 							rec.KF("KF-17b", msg)
 						}
 						rec.Exclude("KF-17b")
+						return
+					}
+					if mode == "shared" && hx.KFOpen("KF-17b") && c17FatalIsKF17b(progs, g, cur) {
+						// possibly the follow-on of another goroutine's log.Fatal on the same bucket (the
+						// entry's lazy load was cut short, its fields are zero: e.g. "integer divide by
+						// zero"), observed before that goroutine has recorded the log.Fatal: judged after
+						// all goroutines have finished
+						mu.Lock()
+						pendingPanics = append(pendingPanics, fmt.Sprintf("goroutine %d panics in op %d %+v: %v", g, cur, progs[g][cur], r))
+						mu.Unlock()
 						return
 					}
 					fail("goroutine %d panics in op %d %+v: %v", g, cur, progs[g][cur], r)
@@ -637,6 +648,13 @@ func c17Conc(t *rapid.T, rec *hx.Rec, nowYear int) {
 	}
 	close(start)
 	wg.Wait()
+	for _, p := range pendingPanics {
+		if atomic.LoadInt32(&fatalSeen) == 1 {
+			rec.Exclude("KF-17b") // in production the process had exited at the log.Fatal
+		} else {
+			fail("%s", p)
+		}
+	}
 	var v *c17Views
 	if atomic.LoadInt32(&fatalSeen) == 0 {
 		// quiescence: let the background writer flush what is queued
